@@ -14,7 +14,7 @@ import (
 func init() {
 	register(&Prop{
 		ID:          "C18",
-		Explanation: "Decides where cookie attributes can come from: http.Cookie values are allocated only in MakeCookieFromOptions, copyCookie and the name validator; every argument of http.SetCookie derives from MakeCookieFromOptions (directly, through the makeCookie wrappers, splitCookie or copyCookie) and no Set-Cookie header is written by hand; in the constructor Path, HttpOnly, Secure, SameSite are wired from the same-named options (SameSite through ParseSameSite), Name and Value from the parameters, and Domain is GetCookieDomain(req, opts.Domains) or, only when that is empty and domains are configured, the last configured domain; GetCookieDomain returns an element of the list only under HasSuffix(request host, element), scanning in list order; fields of an existing cookie are stored only by the constructors, splitCookie (Name, Value) and joinCookies (Name, Value); copyCookie copies every attribute field of http.Cookie; deletions reuse the setter's name expression and options and the cookie store deletes each presented cookie under its presented name (shared with C11); validation sorts the configured domains longest-first and nothing reorders or writes that list afterwards.",
+		Explanation: "Decides where cookie attributes can come from: http.Cookie values are allocated only in MakeCookieFromOptions, copyCookie and the name validator; every argument of http.SetCookie derives from MakeCookieFromOptions (directly, through the makeCookie wrappers, splitCookie or copyCookie) and no Set-Cookie header is written by hand; in the constructor Path, HttpOnly, Secure, SameSite are wired from the same-named options (SameSite through ParseSameSite), Name and Value from the parameters, and Domain is GetCookieDomain(req, opts.Domains) or, only when that is empty and domains are configured, the last configured domain; GetCookieDomain returns an element of the list only under HasSuffix(request host, element), scanning in list order; fields of an existing cookie are stored only by the constructors, splitCookie (Name, Value) and joinCookies (Name, Value); copyCookie copies every attribute field of http.Cookie; deletions reuse the setter's name expression and options and the cookie store deletes each presented cookie under its presented name (shared with C11); validation sorts the configured domains longest-first and nothing reorders or writes that list afterwards. Added during the build: the request host is compared with cookie domains only after its port was removed, in the selector as in the warning helper (R6).",
 		NotDecided:  "the 4096-byte bound (arithmetic over sizes), suffix-match semantics of domain selection including host-with-port (values), what http.Cookie.String() emits.",
 		Run:         runC18,
 	})
@@ -31,6 +31,7 @@ func runC18(c *Ctx) {
 	r.Rule("R2-wiring", "constructor wires every attribute from its option; domain selection structure", 8)
 	r.Rule("R3-no-later-rewrite", "cookie fields stored only by constructors, splitCookie/joinCookies (Name, Value); copyCookie copies all attributes", 27)
 	r.Rule("R4-deletions", "deletions reuse name and options of the setters; cookie store deletes under the presented name", 8)
+	r.Rule("R6-host-port-free", "the request host is compared with cookie domains only with its port removed (selector and warning helper agree)", 2)
 	r.Rule("R5-domain-order", "validation sorts domains longest-first; the list is never reordered or written afterwards", 4)
 
 	mk := c.Fn("R1-single-constructor", "pkg/cookies.MakeCookieFromOptions")
@@ -46,6 +47,7 @@ func runC18(c *Ctx) {
 	rule := ""
 
 	runC18R2(c, mk)
+	runC18R6(c, "R6-host-port-free")
 
 	// ---- R3 ---------------------------------------------------------------------------------
 	rule = "R3-no-later-rewrite"
@@ -422,7 +424,11 @@ func runC18R2(c *Ctx, mk *ssa.Function) {
 		for _, cl := range p.Calls() {
 			if isStd(cl.C, "strings", "HasSuffix") && p.Same(p.Arg(cl, 1), r) {
 				if b, k := p.ResultTruth(cl.DV(), -1, p.End()); k && b {
-					if hc, ok := extractOfCall(p, p.Arg(cl, 0), 0); ok && hc.C.StaticCallee() == getHost {
+					hostArg := p.Arg(cl, 0)
+					if sp, ok := extractOfCall(p, hostArg, 0); ok && isStd(sp.C, "net", "SplitHostPort") {
+						hostArg = p.Arg(sp, 0) // the host part of GetRequestHost(req) (port removal is R6's concern)
+					}
+					if hc, ok := extractOfCall(p, hostArg, 0); ok && hc.C.StaticCallee() == getHost {
 						okSuffix = true
 					}
 				}
@@ -630,4 +636,72 @@ func runCookieConstructorRule(c *Ctx, rule string) {
 		}
 	}
 
+}
+
+// runC18R6: the request host is compared with cookie domains only after its port was removed
+// (sibling agreement: the warning helper strips the port, the selector must too — cookies have no port).
+func runC18R6(c *Ctx, rule string) {
+	getHost := c.Fn(rule, "pkg/requests/util.GetRequestHost")
+	splitHP := c.StdFunc(rule, "net.SplitHostPort")
+	if getHost == nil || splitHP == nil {
+		return
+	}
+	n := 0
+	for _, fn := range c.P.ModFns {
+		if prog.Short(prog.FnPkg(fn).Path()) != "pkg/cookies" {
+			continue
+		}
+		calls := false
+		for _, b := range fn.Blocks {
+			for _, in := range b.Instrs {
+				if call, ok := in.(*ssa.Call); ok && call.Call.StaticCallee() == getHost {
+					calls = true
+				}
+			}
+		}
+		if !calls {
+			continue
+		}
+		fn := fn
+		c.WalkShallow(rule, fn, func(p *walk.Path) {
+			for _, cl := range p.Calls() {
+				if !(isStd(cl.C, "strings", "HasSuffix") || isStd(cl.C, "strings", "HasPrefix") || isStd(cl.C, "strings", "EqualFold")) {
+					continue
+				}
+				host := p.Resolve(p.Arg(cl, 0))
+				key := "host-compare|" + fnKey(fn)
+				// (a) host = SplitHostPort(GetRequestHost(req))#0 with err == nil
+				if sp, ok := extractOfCall(p, host, 0); ok && sp.C.StaticCallee() == splitHP {
+					if gh, ok := extractOfCall(p, p.Arg(sp, 0), 0); ok && gh.C.StaticCallee() == getHost {
+						if nn, k := p.ResultNil(sp.DV(), 2, cl.Idx); k && nn {
+							n++
+							c.ok(rule, key, cl.In, "compares SplitHostPort(GetRequestHost(req)) host part")
+							continue
+						}
+					}
+				}
+				// (b) host = GetRequestHost(req) on a path where SplitHostPort(host) failed: there is no port
+				if gh, ok := extractOfCall(p, host, 0); ok && gh.C.StaticCallee() == getHost {
+					stripped := false
+					for _, sp := range p.Find(walk.Static(splitHP), cl.Idx) {
+						if p.Same(p.Arg(sp, 0), host) {
+							if nn, k := p.ResultNil(sp.DV(), 2, cl.Idx); k && !nn {
+								stripped = true
+							}
+						}
+					}
+					n++
+					if stripped {
+						c.ok(rule, key+"|no-port", cl.In, "SplitHostPort found no port on this path")
+					} else {
+						c.bad(rule, key, cl.In, "the request host is compared with a cookie domain without removing its port: for \"app.example.com:4180\" no configured domain matches and the fallback (shortest) domain is used instead of the longest matching one", p, cl.Idx)
+					}
+					continue
+				}
+			}
+		})
+	}
+	if n == 0 {
+		c.R.Unknown(rule, "host-compare|none", "-", "no comparison of the request host with a cookie domain found in pkg/cookies")
+	}
 }
